@@ -100,7 +100,14 @@ func c15Encode(cc c15Case, or *rand.Rand, frames []*image.NRGBA, icc, exif, xmp 
 		return c15Out{d, err}
 	default:
 		var buf bytes.Buffer
-		e := animation.NewEncoder(&buf, cc.W, cc.H, &animation.EncodeOptions{Lossless: cc.Kind != "anim-lossy", Quality: 75, LoopCount: 3})
+		ao := &animation.EncodeOptions{Lossless: cc.Kind != "anim-lossy", Quality: 75, LoopCount: 3}
+		if cc.Opts { // animation options drawn as well: mixed codecs, quality, key-frame distance
+			ao.AllowMixed = or.Intn(2) == 0
+			ao.Lossless = or.Intn(2) == 0
+			ao.Quality = pickI(or, 0, 30, 75, 100)
+			ao.Kmin, ao.Kmax = pickI(or, 0, 1, 3), pickI(or, 0, 1, 2, 5)
+		}
+		e := animation.NewEncoder(&buf, cc.W, cc.H, ao)
 		if icc != nil {
 			e.SetICCProfile(icc)
 		}
@@ -227,6 +234,13 @@ func c15One(c *ev.Ctx, cs ev.Case) {
 		if info.Animated == pinfo.Animated && (a.X != b.X || a.Y != b.Y || a.Duration != b.Duration || a.Blend != b.Blend || a.Dispose != b.Dispose) {
 			c.Violate(cs, "picture-changed", map[string]string{"kind": cc.Kind, "what": "frame-params"}, fmt.Sprintf("frame %d parameters differ", i), rep())
 		}
+	}
+	if info.Animated != pinfo.Animated {
+		// One picture stored as a still on one side and as a one-frame animation on the other: the two are read by
+		// different pipelines (a lossy still comes back as YCbCr, an animation frame as NRGBA through the library's own
+		// upsampler), so their pixels are not comparable; the payload comparison above already covers this pair.
+		c.Count("container_kind_differs_payloads_compared_only", 1)
+		return
 	}
 	p1, e1 := c15Pixels(with.data, info.Animated)
 	p2, e2 := c15Pixels(plain.data, pinfo.Animated)
